@@ -632,11 +632,16 @@ func (E *Engine) typeAssert(st *State, x *ssa.TypeAssert) []*State {
 	if x.CommaOk {
 		zero := E.zeroVal(x.AssertedType)
 		r := E.iteVal(ok, res, zero)
+		// an object found behind an interface is a reachable object: allocated, type invariants hold
+		st.assume(E.allocFacts(st, r)...)
+		E.assumeTypeInvs(st, r)
 		st.regs[x] = &Val{T: x.Type(), F: []*Val{r, boolVal(ok)}}
 		return nil
 	}
 	E.oblige(st, "typeassert", E.site(x), ok, "type assertion succeeds", E.pos(x), nil)
 	st.assume(ok)
+	st.assume(E.allocFacts(st, res)...)
+	E.assumeTypeInvs(st, res)
 	st.regs[x] = res
 	return nil
 }
